@@ -7,7 +7,7 @@ words pyhf uses internally.  The luminosity modifier must be called "lumi" (sche
 """
 
 CHANNELS = {1: "SR one", 2: "cr_2", 3: "z3"}
-SAMPLES = {1: "Bkg", 2: "signal", 3: "ttbar"}
+SAMPLES = {1: "Bkg", 2: "signal", 3: "ttbar", 4: "zjets"}
 PARAMS = {
     1: "Alpha_sys",      # shared by a histosys and a normsys
     2: "Bkg-shape",
@@ -16,6 +16,7 @@ PARAMS = {
     5: "nf 2",
     6: "sf",
     7: "t_ns",
+    8: "tz8",
     9: "u0_undeclared",   # used by the undefined-POI fault
     10: "u10", 11: "u11", 12: "u12", 13: "u13", 14: "u14", 15: "u15",
     21: "v_stat_1", 22: "v_stat_2", 23: "v_stat_3",
